@@ -697,8 +697,8 @@ class C12(Prop):
                 if r['obs']:
                     inter['hold_points'] += r['obs']['nlines']
                     inter['outcomes'] += len(r['obs']['inter'])
-                    inter['second_thread_ran_whole'] += sum(len(o['ks']) for o in r['obs']['inter']
-                                                            if o['b_ran'] == 'whole')
+                    inter['second_thread_ran_whole'] += r['obs'].get('b_whole', 0)
+                    inter['not_ok'] = inter.get('not_ok', 0) + sum(1 for o in r['obs']['inter'] if o['status'] != 'ok')
                 continue
             kinds[c['kind']] = kinds.get(c['kind'], 0) + 1
             for o in c['ops']:
